@@ -199,6 +199,17 @@ class Recorder:
 REC = None
 
 
+def _in_check(r):
+    return bool(r.check_ctx) and r.check_ctx[-1] == len(r.reqs)
+
+
+def _access_subject(r):
+    """(True, obj) when an `_access_attr` of the request being dispatched is in progress"""
+    if r.access_ctx and r.access_ctx[-1][0] == len(r.reqs):
+        return True, r.access_ctx[-1][1]
+    return False, None
+
+
 def _top_handler(r):
     """name of the innermost `_handle_*` of the request being dispatched (None outside any)"""
     for h in reversed(r.handlers):
@@ -254,7 +265,7 @@ def install():
         r = active()
         if r is None:
             return real_hasattr(obj, name)
-        if r.check_depth > 0:
+        if _in_check(r):
             r.touch("probe", obj, name)                       # `_check_attr` (or a helper of it) asks
         elif name == "____conn__" and _top_handler(r) in ("_handle_instancecheck", "_handle_inspect") and r.pv(obj).startswith("o"):
             r.touch("probeconn", obj)
@@ -325,13 +336,13 @@ def install():
 
     def p_getattr(obj, name, *default):
         r = active()
-        if r is None or not r.access_ctx or r.check_depth > 0:
+        if r is None or not _access_subject(r)[0] or _in_check(r):
             return real_getattr(obj, name, *default)
         if default:
             if name not in OPS or default[0] is not None:
                 return real_getattr(obj, name, *default)
             # `getattr(type(obj), overrider, None)`: the subject is the object `_access_attr` was called with
-            subj = r.access_ctx[-1]
+            subj = _access_subject(r)[1]
             r.touch("hooklookup", subj, name)
             try:
                 res = real_getattr(obj, name, *default)
@@ -351,7 +362,7 @@ def install():
 
     def p_setattr(obj, name, value):
         r = active()
-        if r is None or not r.access_ctx:
+        if r is None or not _access_subject(r)[0]:
             return real_setattr(obj, name, value)
         r.touch("attr.set", obj, name, (value,))
         try:
@@ -364,7 +375,7 @@ def install():
 
     def p_delattr(obj, name):
         r = active()
-        if r is None or not r.access_ctx:
+        if r is None or not _access_subject(r)[0]:
             return real_delattr(obj, name)
         r.touch("attr.del", obj, name)
         try:
@@ -720,20 +731,47 @@ def install():
             ORIG[name] = fn
             real_setattr(Conn, name, wrap_handler(name, fn))
 
+    orig_access = Conn._access_attr
+
+    def c_access_attr(self, obj, *rest, **kw):
+        r = active(self)
+        if r is None:
+            return orig_access(self, obj, *rest, **kw)
+        r.access_ctx = r.access_ctx + ((len(r.reqs), obj),)
+        try:
+            return orig_access(self, obj, *rest, **kw)
+        finally:
+            r.access_ctx = r.access_ctx[:-1]
+    Conn._access_attr = c_access_attr
+
+    orig_check = Conn._check_attr
+
+    def c_check_attr(self, *a, **kw):
+        r = active(self)
+        if r is None:
+            return orig_check(self, *a, **kw)
+        r.check_ctx = r.check_ctx + (len(r.reqs),)
+        try:
+            return orig_check(self, *a, **kw)
+        finally:
+            r.check_ctx = r.check_ctx[:-1]
+    Conn._check_attr = c_check_attr
+
     orig_unbox = Conn._unbox
 
     def c_unbox(self, package, *more):
         r = active(self)
         if r is None:
             return orig_unbox(self, package, *more)
-        top = r.unbox_depth == 0 and bool(r.reqs) and not r.reqs[-1].get("unboxed")
+        nested = bool(r.unbox_ctx) and r.unbox_ctx[-1] == len(r.reqs)
+        top = not nested and bool(r.reqs) and not r.reqs[-1].get("unboxed")
         if top:
             r.reqs[-1]["unboxed"] = True       # the first `_unbox` of a request is the one of its argument package
-        r.unbox_depth += 1
+        r.unbox_ctx = r.unbox_ctx + (len(r.reqs),)
         try:
             res = orig_unbox(self, package, *more)
         finally:
-            r.unbox_depth -= 1
+            r.unbox_ctx = r.unbox_ctx[:-1]
         if top and r.reqs:
             from rpyc.core import brine
             if not brine.dumpable(res) and type(res) is not tuple:
@@ -987,23 +1025,35 @@ def _ctx_begin(self, rec, exc):
 
 
 def _ctx_resolve(self, rec, loc):
-    """called on entry of `_handle_getattr(obj, "__exit__")` inside ctxexit: the truth test / raise block are over"""
+    """called on entry of `_handle_getattr(obj, "__exit__")` inside ctxexit: the truth test / raise block are over.
+    What `sys.exc_info()` gave is read off the VALUES of the handler's locals (a traceback object and the exception that
+    carries it), whatever the locals are called."""
     st = rec.get("ctx")
     if st is None:
         return
-    exc, typ, tb = loc.get("exc"), loc.get("typ"), loc.get("tb")
-    self.keep.append((exc, typ, tb))
+    vals = list(loc.values())
+    tb = next((v for v in vals if isinstance(v, types.TracebackType)), None)
+    if tb is None:
+        triple = None
+    else:
+        val = next((v for v in vals if isinstance(v, BaseException) and v.__traceback__ is tb), None)
+        if val is None:
+            val = next((v for v in vals if isinstance(v, BaseException)), None)
+        triple = (type(val), val, tb)
+    self.keep.append(triple)
     if st == "truth":
-        if typ is None and tb is None:
+        if triple is None:
             self.resolve_lazy(rec["lazy"], "R V F")
         else:
             self.resolve_lazy(rec["lazy"], "R V T")
             self.events.append("t:raise %s n=S a=[ ]" % rec["exc_text"])
-            t = "R " + self.pv((exc, typ, tb))
+            t = "R " + self.pv(triple)
             self.tape.append("D " + t)
             self.events.append("a:" + t)
     else:
-        self.resolve_lazy(rec["lazy"], "R " + self.pv((exc, typ, tb)))
+        if triple is None:
+            raise Unobservable("ctxexit: no exception information although the argument is true")
+        self.resolve_lazy(rec["lazy"], "R " + self.pv(triple))
     rec["ctx"] = None
 
 
@@ -1048,6 +1098,6 @@ Recorder.splat_failed = _splat_failed
 Recorder.note_remote_names = _note_remote_names
 Recorder.load_state = None
 Recorder.factory_state = None
-Recorder.access_ctx = ()      # stack of (obj,) of the `_access_attr` calls in progress
-Recorder.check_depth = 0     # `_check_attr` calls in progress
-Recorder.unbox_depth = 0
+Recorder.access_ctx = ()      # stack of (request level, obj) of the `_access_attr` calls in progress
+Recorder.check_ctx = ()       # request levels of the `_check_attr` calls in progress
+Recorder.unbox_ctx = ()       # request levels of the `_unbox` calls in progress
